@@ -777,6 +777,15 @@ class PipelineCheck(Check):
                         if not crashing:
                             raise HarnessError("crash without a scheduled crash")
                     except StageFailed as err:
+                        if stage == "D" and "singular" in err.text and self._shift_is_numerically_an_eigenvalue(esc, d):
+                            # the statement's precondition "the shift is not itself an eigenvalue" fails at working
+                            # precision: |sigma| is below 1e-9 of the largest rate, Q - sigma*I is Q in float64 and
+                            # Q has the eigenvalue 0 - the LU factorisation rightly refuses. Nothing to judge.
+                            probes["shift_numerically_an_eigenvalue"] = probes.get("shift_numerically_an_eigenvalue", 0) + 1
+                            complete[stage] = True
+                            log.add(f"{stage}{e}", "shift-singular", op.get("mode", "warm"))
+                            sig.append((stage, e, op.get("mode", "warm"), "shift-singular"))
+                            continue
                         if x["is_f12"]:
                             raise Violation("pipeline-incomplete", f"stage {stage} cannot complete in Cartesian mode on "
                                             f"direction grid {esc['spec']['canon_o']} (open Voronoi cells): {err.text}",
@@ -808,6 +817,17 @@ class PipelineCheck(Check):
         nontrivial = sum(faults.values()) >= 1 or cold_stages >= 1
         return {"events": log.n, "fingerprint": log.digest(), "faults": faults, "probes": probes, "sig": repr(sig),
                 "nontrivial": nontrivial, "inter": repr(sig[8:])}
+
+    @staticmethod
+    def _shift_is_numerically_an_eigenvalue(esc, d) -> bool:
+        from scipy import sparse
+        try:
+            Q = sparse.load_npz(os.path.join(d, "rate_matrix.npz"))
+            sig_used = effective_sigma(esc["solver"], Q)
+            scale = float(np.max(np.abs(Q.diagonal())))
+        except Exception:  # noqa: BLE001
+            return False
+        return sig_used is not None and scale > 0 and abs(sig_used) <= 1e-9 * scale
 
     def _oracles(self, sc, d, log, probes, f12_key):
         """Trusted side: read the files left on the simulated disk with numpy/scipy directly and judge them."""
